@@ -57,6 +57,9 @@ Definition dcheck (tol : Q) (c : dcase) : bool * Z :=
     positive, are they all non-zero.  Result: (every line has non-zero pivots and every line meeting the
     condition has positive pivots, number of lines meeting the condition). *)
 Definition flagline (b : bool) (len : nat) : list D := repeat (if b then n1 else n0) len.
+(** one pass per line: the pivots of a line are computed once; the line's entries carry the code
+    (1 if the Peclet condition holds on the line) + (2 if the line is in order: pivots all non-zero, and all positive
+    when the condition holds). *)
 Definition kpiv (c : kcase) : bool * Z :=
   let grids := map l2D (kc_grids c) in
   let p := pop2D (kc_pop c) in
@@ -69,9 +72,15 @@ Definition kpiv (c : kcase) : bool * Z :=
   let pec os := forallb (fun i => nleb n0 (atemp xs Vf (Mf os) (kc_delj c) i) && nleb n0 (ctemp xs Vf (Mf os) (kc_delj c) i)) (seq 0 (N - 1)) in
   let pivs os line := all_pivots (line_rows xs Vf (Mf os) (p_nu p) (all_eq n0 os) (all_eq n1 os) dt (kc_delj c) line) in
   let phi := z2D (kc_phi c) in
-  let fpec := map_lines (kc_shape c) grids k (fun os line => flagline (pec os) N) phi in
-  let fpos := map_lines (kc_shape c) grids k (fun os line => flagline (forallb (fun b => nltb n0 b) (pivs os line)) N) phi in
-  let fnz := map_lines (kc_shape c) grids k (fun os line => flagline (forallb (fun b => negb (nleb n0 b && nleb b n0)) (pivs os line)) N) phi in
-  let isone (x : D) := nleb n1 x in
-  (forallb isone fnz && forallb (fun ab => implb (isone (fst ab)) (isone (snd ab))) (combine fpec fpos),
-   Z.of_nat (length (filter isone fpec))).
+  let n2 : D := nadd n1 n1 in
+  let n3 : D := nadd n2 n1 in
+  let code os line :=
+    let pv := pivs os line in
+    let pe := pec os in
+    let nz := forallb (fun b => negb (nleb n0 b && nleb b n0)) pv in
+    let good := nz && (if pe then forallb (fun b => nltb n0 b) pv else true) in
+    repeat (nadd (if pe then n1 else n0) (if good then n2 else n0)) N in
+  let f := map_lines (kc_shape c) grids k code phi in
+  let is_good (x : D) := nleb n2 x in
+  let is_pec (x : D) := (nleb n1 x && negb (nleb n2 x)) || nleb n3 x in
+  (forallb is_good f, Z.of_nat (length (filter is_pec f))).
